@@ -192,11 +192,15 @@ def discharge(obligations, facts, timeout_ms=20000, seed=0, second=None, jobs=No
     if second:
         t2 = min(timeout_ms, 15000)
         cmds = {"cvc5": (["/usr/bin/cvc5", "--tlimit=%d" % t2], t2 / 1000 + 5), "z3-4.8": (["/usr/bin/z3", "-T:%d" % (t2 // 1000)], t2 / 1000 + 5)}
+        import random as _r
+        pick = list(range(len(texts)))
+        _r.Random(seed).shuffle(pick)
+        pick = sorted(pick[:40])  # a seeded sample of the obligations is re-discharged by the second solver
         for name in second:
             cmd, to = cmds[name]
-            r2 = list(ex.map(_check_cli, [(t, cmd, to) for t in texts]))
-            for o, r in zip(out, r2):
-                o.setdefault("second", {})[name] = {"result": r[0], "secs": round(r[3], 3)}
+            r2 = list(ex.map(_check_cli, [(texts[i], cmd, to) for i in pick]))
+            for i, r in zip(pick, r2):
+                out[i].setdefault("second", {})[name] = {"result": r[0], "secs": round(r[3], 3)}
     return out
 
 
